@@ -188,6 +188,13 @@ Proof.
     cbn in H. injection H as <-. constructor; [exact E|]. apply IH. reflexivity.
 Qed.
 
+Lemma Forall2_len {A B} (R : A -> B -> Prop) l l' : Forall2 R l l' -> length l = length l'.
+Proof. induction 1; cbn; congruence. Qed.
+
+Lemma Forall2_imp {A B} (R S : A -> B -> Prop) l l' :
+  (forall a b, R a b -> S a b) -> Forall2 R l l' -> Forall2 S l l'.
+Proof. intros H. induction 1; constructor; auto. Qed.
+
 Section Search.
   Variable XV : Type.
   Variable tm : Z -> Z.
@@ -231,7 +238,7 @@ Section Search.
        else Forall (fun y => (m < y)%Q) pre /\ Forall (fun y => (m <= y)%Q) post).
   Proof.
     intros Hasc H. destruct (tune_inv sp st cands s H) as (c0 & rest & means & Hc & Hall & Hs).
-    pose proof (all_ok_Forall2 _ _ _ Hall) as HF. pose proof (Forall2_length HF) as Hlen.
+    pose proof (all_ok_Forall2 _ _ _ Hall) as HF. pose proof (Forall2_len _ _ _ HF) as Hlen.
     assert (Hne : means <> []) by (destruct means; [subst cands; discriminate|discriminate]).
     destruct (select_first_best (ascending_expr (PyBool gib)) means Hne)
       as (pre & m & post & Hm & Hbi & Hrk & Hfb & Hfb').
@@ -275,7 +282,7 @@ Section Search.
         [|discriminate].
       destruct (evaluate_rows_are_splits _ _ _ _ _ _ _ _ _ _ _ E) as (ss & Hss & _). exists ss. exact Hss. }
     destruct Hss as (ss & Hss). exists ss. split; [exact Hss|].
-    eapply Forall2_impl; [|exact HF]. intros p mean Hp. cbv beta in Hp.
+    eapply Forall2_imp; [|exact HF]. intros p mean Hp. cbv beta in Hp.
     unfold cand_mean, cand_eval in Hp.
     destruct (evaluate XV tm yv xv (respond p) (cutoff_after p) metric sp st) as [[rows tr]|] eqn:E;
       [|discriminate].
